@@ -373,7 +373,9 @@ def ring_index(prog, res):
                     n += 1
                     ok = False
                     if x.get("k") == "asg" and x["op"] == "=":
-                        rhs = strip_casts(x["rhs"])
+                        rhs = strip_casts(f.resolve_x(x["rhs"]))
+                        if rhs is not None and rhs.get("k") == "ref" and rhs.get("rk") in ("l", "sl") and f.single_def(rhs["n"]) is not None:
+                            rhs = strip_casts(f.resolve_x(f.single_def(rhs["n"])))      # value computed into a local first
                         if const_val(rhs) == 0:
                             ok = True
                         elif rhs.get("k") == "bin" and rhs["op"] == "%":
